@@ -20,7 +20,11 @@ from vsim import core, driver, load, policy
 from checks import sched, simcheck
 
 NAMES_OK = ('run', 'with space', 'ünï', '-dash', 'dot.ted', 'x' * 120,
-            'UPPER', 'a b c', 'stdout', 'stderr', 'tab\there', "quo'te")
+            'UPPER', 'a b c', 'stdout', 'stderr', 'tab\there', "quo'te",
+            # names that differ in little: after the last dot, blank versus
+            # underscore, upper versus lower case, a trailing blank
+            'solver.debug', 'solver.release', 'case 1', 'case_1', 'Upper',
+            'run ', 'run.log', 'stdout.log')
 NAMES_BAD = ('sl/ash', 'nul\0char', '.', '..', '/abs', '')
 CODE_KINDS = ('checkout', 'build')
 MARKER = '--verif-task-%d'
